@@ -23,6 +23,7 @@ type c10Cfg struct {
 	Base    int64 `json:"epoch_base_ms,omitempty"`   // timestamps of a present-day epoch (Base + t - 10000), handed over as float64
 	Alpha   []int64 `json:"alphabet_ms,omitempty"` // a reduced timestamp alphabet (longer two-key sequences)
 	Block   bool  `json:"block_slow_consumer,omitempty"` // strategy block without timeout, window output buffer of 1, sink taking 20 ms per batch
+	NestedKey bool `json:"nested_path_key,omitempty"` // the grouping column is the nested path d.x (selected AS k)
 }
 
 func c10Opts(c c10Cfg, eager bool) detOpts {
@@ -50,6 +51,7 @@ func c10Configs(tier string) []c10Cfg {
 		}
 	}
 	out = append(out, c10Cfg{Timeout: 2000, OOOMs: 0, Keys: 2, MaxL: maxL - 1, Block: true})
+	out = append(out, c10Cfg{Timeout: 2000, OOOMs: 0, Keys: 2, MaxL: maxL - 1, NestedKey: true})
 	// two keys, four arrivals, out-of-order arrivals of one key inside the tolerance while the other key's session is open
 	out = append(out, c10Cfg{Timeout: 2000, OOOMs: 3000, Keys: 2, MaxL: 4, Alpha: []int64{12500, 15000, 16000, 17500}})
 	// present-day epoch, float64 timestamps (what a JSON decoder hands over); tolerance not a multiple of 4 ms
@@ -70,6 +72,9 @@ func c10SQL(c c10Cfg) string {
 	with := "TIMESTAMP='ts', TIMEUNIT='ms'"
 	if c.OOOMs > 0 {
 		with += fmt.Sprintf(", MAXOUTOFORDERNESS='%dms'", c.OOOMs)
+	}
+	if c.NestedKey {
+		return fmt.Sprintf("SELECT d.x AS k, count(*) AS c, collect(id) AS ids, window_start() AS ws, window_end() AS we FROM stream GROUP BY d.x, SessionWindow('%dms') WITH (%s)", c.Timeout, with)
 	}
 	return fmt.Sprintf("SELECT k, count(*) AS c, collect(id) AS ids, window_start() AS ws, window_end() AS we FROM stream GROUP BY k, SessionWindow('%dms') WITH (%s)", c.Timeout, with)
 }
@@ -343,6 +348,10 @@ func (c10) Run(u fw.Unit) fw.Result {
 					for _, ev := range evs {
 						if c.Base > 0 {
 							e.Emit(Row{"id": ev.ID, "k": ev.Key, "ts": float64(ev.TS)})
+							continue
+						}
+						if c.NestedKey {
+							e.Emit(Row{"id": ev.ID, "k": "top-level", "d": map[string]any{"x": ev.Key}, "ts": ev.TS})
 							continue
 						}
 						e.Emit(Row{"id": ev.ID, "k": ev.Key, "ts": ev.TS})
